@@ -381,6 +381,7 @@ func main() {
 	runModeMessage()
 	runReader()
 	runCanvas()
+	runAsymMargins()
 	runObjectHistories()
 	chk.Finish()
 }
